@@ -201,6 +201,7 @@ dLUMemInit(fact_t fact, void *work, int_t lwork, int m, int n, int_t annz,
     double   *ucol;
     int_t    *usub, *xusub;
     int_t    nzlmax, nzumax, nzlumax;
+    int_t    head_top1 = 0, head_used = 0; /* USER model: stack state before the L\U requests */
     
     iword     = sizeof(int);
     dword     = sizeof(double);
@@ -244,6 +245,10 @@ dLUMemInit(fact_t fact, void *work, int_t lwork, int m, int n, int_t annz,
 	    xusub  = duser_malloc((n+1) * iword, HEAD, Glu);
 	}
 
+	if ( Glu->MemModel == USER ) {
+	    head_top1 = Glu->stack.top1;
+	    head_used = Glu->stack.used;
+	}
 	lusup = (double *) dexpand( &nzlumax, LUSUP, 0, 0, Glu );
 	ucol  = (double *) dexpand( &nzumax, UCOL, 0, 0, Glu );
 	lsub  = (int_t *) dexpand( &nzlmax, LSUB, 0, 0, Glu );
@@ -256,8 +261,10 @@ dLUMemInit(fact_t fact, void *work, int_t lwork, int m, int n, int_t annz,
 		SUPERLU_FREE(lsub); 
 		SUPERLU_FREE(usub);
 	    } else {
-		duser_free((nzlumax+nzumax)*dword+(nzlmax+nzumax)*iword,
-                            HEAD, Glu);
+		/* Release exactly what the four requests obtained (some may
+		   have failed, and alignment padding may have been added). */
+		Glu->stack.top1 = head_top1;
+		Glu->stack.used = head_used;
 	    }
 	    nzlumax /= 2;
 	    nzumax /= 2;
